@@ -7,7 +7,12 @@ from e1 import DEFAULT_FEATURES as DF
 
 Q, T = "quick", "thorough"
 
+DEFAULT_UNWINDSET = {"poseidon_hash_many": 8}
+
 def e1(id, harness, bounds, desc, tier=Q, features=DF, timeout=900, witness=True, unwindset=None):
+    us = dict(DEFAULT_UNWINDSET)
+    us.update(unwindset or {})
+    unwindset = us
     return dict(id=id, engine="e1", harness=harness, features=features, tier=tier, bounds=bounds,
                 desc=desc, timeout=timeout, witness=witness, unwindset=unwindset)
 
@@ -88,4 +93,42 @@ PROPS["C12"] = dict(
     obligations=[e2("C12")],
     assumptions=E2_ASSUMPTIONS,
     outside=[],
+)
+
+PROPS["C10"] = dict(
+    title="Query indices are in range, strictly increasing, and map to the right points",
+    level="model_checking",
+    obligations=[
+        e1("C10.generate.n%d" % n, "c10_generate_%d" % n,
+           "transcript state (digest, counter): any felts; domain size 2^k, k any in 1..=64; query count n = %d (concrete per instance)" % n,
+           "generate_queries == sort+dedup(low128(challenge_i) mod 2^k): in range, strictly increasing, at most n, deterministic, transcript advanced by n squeezes",
+           tier=(Q if n <= 2 else T), timeout=1800, witness=(n <= 1))
+        for n in range(0, 6)
+    ] + [
+        e1("C10.points", "c10_points", "log domain size any in 1..=64, generator any felt, index any < 2^log (one query)", "queries_to_points: index -> 3 * w^bitreverse_log(index) (w^e an uninterpreted pow, bit reversal exact)", timeout=1200),
+    ],
+    outside=["query counts above 5 (sorting code is std's; the loop body is uniform)", "agreement with the indices the prover logged on recorded proofs (concrete file replay)",
+             "domain sizes above 2^64 (queries_to_points asserts; recorded under C18)"],
+)
+def _hist(name, seq, diff, tier=Q):
+    return e1("C08.history.%s.diff%d" % (seq, diff), name, "operation sequence %s (A absorb felt, V absorb 2-vector, U absorb u64, S squeeze), initial digest and all messages any felts; two runs differing exactly in the message of operation %d" % (seq, diff),
+              "challenges before the changed message are equal, all later ones differ; challenges of one run are pairwise different", tier=tier, timeout=900)
+PROPS["C08"] = dict(
+    title="Fiat-Shamir challenges depend on exactly the messages sent before them",
+    level="model_checking",
+    obligations=[
+        e1("C08.step.squeeze", "c08_step_laws_0", "state (digest, counter) any felts", "squeeze = Poseidon(digest, counter), counter+1, digest kept"),
+        e1("C08.step.absorb_felt_u64", "c08_step_laws_1", "state and message any", "absorb = Poseidon_many(digest+1, msg), counter reset; u64 absorbed as its felt"),
+        e1("C08.step.absorb_vec2", "c08_step_laws_2", "state any, vector of 2 any felts", "absorb vector = Poseidon_many(digest+1, v...), counter reset", unwindset={"poseidon_hash_many": 5}),
+        e1("C08.step.absorb_vec0", "c08_step_laws_3", "state any, empty vector", "absorb of the empty vector"),
+        e1("C08.n_squeezes.2", "c08_n_squeezes_2", "state any; n = 2", "random_felts_to_prover(n) = n successive squeezes"),
+        e1("C08.n_squeezes.0", "c08_n_squeezes_0", "state any; n = 0", "random_felts_to_prover(0) = nothing", tier=T),
+        e1("C08.n_squeezes.3", "c08_n_squeezes_3", "state any; n = 3", "random_felts_to_prover(3)", tier=T),
+        _hist("c08_hist_ass_0", "ASS", 0), _hist("c08_hist_sas_1", "SAS", 1), _hist("c08_hist_aass_1", "AASS", 1),
+        _hist("c08_hist_vsas_0", "VSAS", 0), _hist("c08_hist_uss_0", "USS", 0), _hist("c08_hist_svss_1", "SVSS", 1),
+        _hist("c08_hist_avus_2", "AVUS", 2, T), _hist("c08_hist_asas_2", "ASAS", 2, T), _hist("c08_hist_ssuss_2", "SSUSS", 2, T), _hist("c08_hist_vvss_0", "VVSS", 0, T),
+    ],
+    outside=["agreement with the V->P lines of recorded Stone annotations (concrete file replay, not a solver question)",
+             "histories longer than 5 operations are covered only through the inductive step laws (C08.step.*)",
+             "commit-phase ordering (stark_commit / fri_commit / traces_commit): see the C08.order.* obligations when present"],
 )
